@@ -152,10 +152,19 @@ func (s *Service) CopyWithOptions(options ServiceOptions, targetOptions TargetOp
 }
 
 func (s *Service) Dispose() {
-	s.active.Dispose()
-	if s.rollout != nil {
-		s.rollout.Dispose()
+	active, rollout, _ := s.loadBalancers()
+
+	active.Dispose()
+	if rollout != nil {
+		rollout.Dispose()
 	}
+}
+
+func (s *Service) loadBalancers() (*LoadBalancer, *LoadBalancer, *RolloutController) {
+	s.serviceLock.Lock()
+	defer s.serviceLock.Unlock()
+
+	return s.active, s.rollout, s.rolloutController
 }
 
 func (s *Service) UpdateLoadBalancer(lb *LoadBalancer, slot TargetSlot) *LoadBalancer {
@@ -217,19 +226,21 @@ type marshalledService struct {
 }
 
 func (s *Service) MarshalJSON() ([]byte, error) {
+	active, rollout, rolloutController := s.loadBalancers()
+
 	var rolloutTargets []string
-	if s.rollout != nil {
-		rolloutTargets = s.rollout.Targets().Names()
+	if rollout != nil {
+		rolloutTargets = rollout.Targets().Names()
 	}
 
 	return json.Marshal(marshalledService{
 		Name:              s.name,
-		ActiveTargets:     s.active.Targets().Names(),
+		ActiveTargets:     active.Targets().Names(),
 		RolloutTargets:    rolloutTargets,
 		Options:           s.options,
 		TargetOptions:     s.targetOptions,
 		PauseController:   s.pauseController,
-		RolloutController: s.rolloutController,
+		RolloutController: rolloutController,
 	})
 }
 
@@ -337,23 +348,27 @@ func (s *Service) initialize() error {
 }
 
 func (s *Service) Drain(timeout time.Duration) {
+	active, rollout, _ := s.loadBalancers()
+
 	PerformConcurrently(
 		func() {
-			s.active.DrainAll(timeout)
+			active.DrainAll(timeout)
 		},
 		func() {
-			if s.rollout != nil {
-				s.rollout.DrainAll(timeout)
+			if rollout != nil {
+				rollout.DrainAll(timeout)
 			}
 		},
 	)
 }
 
 func (s *Service) loadBalancerForRequest(req *http.Request) *LoadBalancer {
-	lb := s.active
-	if s.rollout != nil && s.rolloutController != nil && s.rolloutController.RequestUsesRolloutGroup(req) {
+	active, rollout, rolloutController := s.loadBalancers()
+
+	lb := active
+	if rollout != nil && rolloutController != nil && rolloutController.RequestUsesRolloutGroup(req) {
 		slog.Debug("Using rollout for request", "service", s.name, "path", req.URL.Path)
-		lb = s.rollout
+		lb = rollout
 	}
 
 	return lb
